@@ -34,48 +34,48 @@ ASSUME_IO = 'user I/O components are abstract (ghost sink_bytes/rd_bytes); std w
 ASSUME_PHYS = 'physical size bounds assumed at named call sites: any Vec/slice < 2^60 elements, any sink accepted < 2^62 bytes, < 2^32 offset slots per block, entries_count < 2^64-1, 64-bit usize'
 ASSUME_DROP = 'impl Drop for BlockBuffer is modelled by an explicit call inserted at the end of compress_and_write_block (R-drop); derive(Clone) for BlockWriter assumed to copy'
 WRITER_PROVED = 'Writer::into_inner is proved to emit a well-formed file (file_wf: blocks back to back, every index level = (last key -> offset) links of the level below in order, root last, representable sizes, 22-byte trailer) holding exactly the inserted entries'
-IBC_ASSUMED = 'the five IndexBlockCursor moves (first/last/next/prev/>=: iter_index_blocks, recursive_index_block, initial_index_blocks -- closures over a Vec of per-level block cursors) carry ASSUMED contracts (labels IBC.*.assumed): they return the link of the data block the statement prescribes and load at most levels+1 blocks; exercised by the bounded stand-ins'
+IBC_ASSUMED = 'the IndexBlockCursor traversal (iter_index_blocks, recursive_index_block with its nested recursive, initial_index_blocks, and the five moves built on them) is proved in Verus with a per-level representation invariant over the index levels of the tree model (every level holds a block of its level with a truthful offset tag; At(d) = a consistent root-to-leaf path to data block d); the one remaining assumed link is the shim init_by_ref (label IBC.init_by_ref.assumed): a mover closure handed on as `&mut mov` keeps its contract. Rewrites applied to these functions before verification (R-iter-mut-index, R-try-split, R-tail-let, ghost parameters) are listed in DESIGN.md 0.3'
 READER_PROVED = 'every ReaderCursor operation (first/last/next/prev, >= / <= / == seeks, current, reset, block loads) is proved against those contracts over the tree model of the file, with a representation invariant (logical position At(i) <-> loaded data block and in-block position)'
 WRITER_UNPROVED = IBC_ASSUMED
 READER_UNPROVED = IBC_ASSUMED
 
 PROPS = {
     'C01': dict(
-        level='other',
-        level_text='Proved (Verus, unbounded) end to end at the level of bytes, modulo the index-cursor contracts: (1) the whole write path -- framing == LEB128 frames, block bytes == payload ++ offset table ++ count, every emitted block == be64(len) ++ compress(block) -- and Writer::into_inner emits a well-formed file (file_wf) holding exactly the inserted entries, count/codec/levels in the 22-byte trailer, sink flushed; (2) lemma_open_written: whatever metadata a reader decodes from the trailer of such bytes is the written one (trailer injectivity), the bytes are a well-formed tree from the decoded root (tree_ok) and the entry list the cursor contracts speak about (tree_entries) is exactly the inserted list -- including uniqueness of the decoded tree (any two block logs describing the same bytes agree block by block); (3) Block::read_from decodes exactly the stored block; every ReaderCursor move returns the entry of tree_entries the statement prescribes (first = entry 0, next = i+1, ..., None past the ends), Reader::len == count. Assumed link: the IndexBlockCursor moves. Bounded stand-in for that link and the whole pipeline: real Writer+Reader over all codecs, index depths 0..5 and 255, block sizes, intervals, key shapes incl. the lone empty key and entries larger than a block, compared with the inserted list and cross-checked by an independent decoder.',
+        level='proof',
+        level_text='Proved (Verus, unbounded) end to end at the level of bytes, down to the block decoder and the assumed std I/O contracts: (1) the whole write path -- framing == LEB128 frames, block bytes == payload ++ offset table ++ count, every emitted block == be64(len) ++ compress(block) -- and Writer::into_inner emits a well-formed file (file_wf) holding exactly the inserted entries, count/codec/levels in the 22-byte trailer, sink flushed; (2) lemma_open_written: whatever metadata a reader decodes from the trailer of such bytes is the written one (trailer injectivity), the bytes are a well-formed tree from the decoded root (tree_ok) and the entry list the cursor contracts speak about (tree_entries) is exactly the inserted list -- including uniqueness of the decoded tree (any two block logs describing the same bytes agree block by block); (3) Block::read_from decodes exactly the stored block; every ReaderCursor move returns the entry of tree_entries the statement prescribes (first = entry 0, next = i+1, ..., None past the ends), Reader::len == count. The IndexBlockCursor traversal underneath is proved too (per-level invariant over the index levels; one trusted one-line shim for a closure passed as &mut). Bounded stand-in for the whole pipeline: real Writer+Reader over all codecs, index depths 0..5 and 255, block sizes, intervals, key shapes incl. the lone empty key and entries larger than a block, compared with the inserted list and cross-checked by an independent decoder.',
         level_note='Proved obligations trust: ' + ASSUME_CODEC + '; ' + ASSUME_IO + '; ' + ASSUME_PHYS + '; ' + ASSUME_DROP + '. Assumed: ' + IBC_ASSUMED,
         technique='Verus contracts on the extracted write path, block decoding and ReaderCursor + ghost file model (block log / index tree) with a write-meets-read lemma; bounded differential stand-in (real Writer/Reader vs inserted list and independent decoder)',
         kani=[], native=[N('verif_rw::c01_roundtrip', '25 (quick) / 67 (thorough) files: <= 2700 entries, index_levels in {0,1,2,3,4,5,255}, all 6 codecs, block sizes {1024,1500,4096}, intervals {1,2,3,7,8,100}')], witness=[],
         unproved=[WRITER_UNPROVED, READER_UNPROVED], assumptions=[ASSUME_CODEC, ASSUME_IO, ASSUME_PHYS, ASSUME_DROP],
-        explanation='write path, file model, decoding and cursor layer proved; index-cursor traversal assumed + bounded'),
+        explanation='write path, file model, decoding, cursor and index-cursor layers proved; bounded stand-in as independent check'),
     'C02': dict(
-        level='other',
-        level_text='Proved (Verus, unbounded): in-block search (BlockCursor <= / >= against the floor/ceiling oracles written from the statement, binary search over the offset table + linear scan); Block::read_from/entry_at decode exactly the stored block; ReaderCursor::move_on_key_greater_than_or_equal_to returns the ceiling of the probe in the whole file (two-level ceiling lemma: first data block whose last key is >= q, then the ceiling inside it), move_on_key_lower_than_or_equal_to the floor (floor-from-ceiling lemma + prev/last), move_on_key_equal_to the entry with exactly that key or None -- all over the tree model of the file and for any AsRef<[u8]> probe. Assumed link: IndexBlockCursor::move_on_key_greater_than_or_equal_to returns the link of the first data block whose last key is >= q (IBC.ge.assumed). Bounded stand-in for it: 14+ files (index depth 0..4, deep trees with few long keys, exact multiples of the interval, keys differing by trailing zero bytes, the empty key), every equivalence class of probes with GE/LE/EQ on fresh, reset and cloned cursors vs the sorted list.',
+        level='proof',
+        level_text='Proved (Verus, unbounded): in-block search (BlockCursor <= / >= against the floor/ceiling oracles written from the statement, binary search over the offset table + linear scan); Block::read_from/entry_at decode exactly the stored block; ReaderCursor::move_on_key_greater_than_or_equal_to returns the ceiling of the probe in the whole file (two-level ceiling lemma: first data block whose last key is >= q, then the ceiling inside it), move_on_key_lower_than_or_equal_to the floor (floor-from-ceiling lemma + prev/last), move_on_key_equal_to the entry with exactly that key or None -- all over the tree model of the file and for any AsRef<[u8]> probe. IndexBlockCursor::move_on_key_greater_than_or_equal_to is proved to return the link of the first data block whose last key is >= q (descent lemma per level: lemma_ge_step / lemma_descend, iter_index_blocks, initial_index_blocks). Bounded stand-in (kept as an independent check): 14+ files (index depth 0..4, deep trees with few long keys, exact multiples of the interval, keys differing by trailing zero bytes, the empty key), every equivalence class of probes with GE/LE/EQ on fresh, reset and cloned cursors vs the sorted list.',
         level_note=IBC_ASSUMED + '; bounded: file sizes <= 2500 entries',
-        technique='Verus contracts on Block/BlockCursor/ReaderCursor over the tree model (ceiling/floor lemmas) + bounded differential stand-in for the assumed index-cursor descent',
+        technique='Verus contracts on Block/BlockCursor/ReaderCursor over the tree model (ceiling/floor lemmas) + bounded differential stand-in as an independent check',
         kani=[], native=[N('verif_cursor::c02_seeks', '14 files (26 thorough), <= 2500 entries, ~7500 probes x {fresh, reset+clone}')], witness=[],
-        unproved=[READER_UNPROVED], explanation='cursor-level search proved over assumed index-cursor contracts; descent bounded'),
+        unproved=[READER_UNPROVED], explanation='search proved end to end down to the block decoder; bounded stand-in as independent check'),
     'C03': dict(
         level='other',
-        level_text='Proved (Verus, unbounded in the length of the history; induction = the ReaderCursor representation invariant valid(), required and ensured by every operation): the logical position (Unset / At(i) / Unknown) determines what first/last/next/prev/current return -- first -> entry 0, last -> the last one, next from At(i) -> i+1, prev -> i-1, from Unset next = first and prev = last, current at At(i) = entry i, reset -> Unset, None exactly past the ends -- independent of which blocks happen to be loaded. Every BlockCursor operation likewise. Assumed link: the IndexBlockCursor moves (their own position-dependence is stated in IBC.*.assumed). After an operation that returned None the contracts promise nothing about the position (Unknown): the literal clause about current() there is the recorded finding. Bounded stand-in: random operation histories incl. long next/prev runs crossing index blocks, the documented first,first,next*,first sweep, clone independence, replayed against a model whose state is (sorted content, logical position).',
+        level_text='Proved (Verus, unbounded in the length of the history; induction = the ReaderCursor representation invariant valid(), required and ensured by every operation): the logical position (Unset / At(i) / Unknown) determines what first/last/next/prev/current return -- first -> entry 0, last -> the last one, next from At(i) -> i+1, prev -> i-1, from Unset next = first and prev = last, current at At(i) = entry i, reset -> Unset, None exactly past the ends -- independent of which blocks happen to be loaded. Every BlockCursor operation likewise. The IndexBlockCursor moves are proved likewise (ghost logical position of the index cursor; relative moves via the nested recursive climb with prefix invariants held_with / path_with; one trusted shim for a closure passed as &mut). After an operation that returned None the contracts promise nothing about the position (Unknown): the literal clause about current() there is the recorded finding. Bounded stand-in: random operation histories incl. long next/prev runs crossing index blocks, the documented first,first,next*,first sweep, clone independence, replayed against a model whose state is (sorted content, logical position).',
         level_note=IBC_ASSUMED + '; bounded: <= 840 histories of <= ~12000 operations per run (3x in thorough)',
         technique='Verus representation invariants on BlockCursor and ReaderCursor (ghost logical position) + bounded model-based stand-in on the real ReaderCursor',
         kani=[], native=[N('verif_cursor::c03_histories', '60 (300 thorough) random histories per file x 14 files + sweep and clone scenarios'), N('verif_cursor::c03_current_after_none_literal', 'same histories; literal current() clause (known finding)')], witness=[],
-        unproved=[READER_UNPROVED], explanation='history independence proved at cursor level over assumed index-cursor contracts; bounded stand-in for the rest'),
+        unproved=[READER_UNPROVED], explanation='history independence proved for ReaderCursor and IndexBlockCursor; bounded stand-in as independent check'),
     'C04': dict(
-        level='other',
-        level_text='Proved (Verus, unbounded, on top of the proved ReaderCursor contracts): RangeIter::next / RevRangeIter::next return, on the first call, the first (last) entry satisfying the start (end) bound iff it also satisfies the opposite bound, and afterwards the adjacent entry iff it satisfies the opposite bound; end_contains/start_contains are exactly the bound predicates of the statement. The ReaderCursor contracts are themselves proved (C02/C03) relative to the assumed IndexBlockCursor moves, which the bounded stand-in exercises: forward and reverse range iterators over all 9 bound-kind combinations with present/absent/equal/inverted bounds on files with index depth 0..4 and variable-length keys, compared with the filtered sorted list.',
+        level='proof',
+        level_text='Proved (Verus, unbounded, on top of the proved ReaderCursor contracts): RangeIter::next / RevRangeIter::next return, on the first call, the first (last) entry satisfying the start (end) bound iff it also satisfies the opposite bound, and afterwards the adjacent entry iff it satisfies the opposite bound; end_contains/start_contains are exactly the bound predicates of the statement. The ReaderCursor contracts are themselves proved (C02/C03) and so is the IndexBlockCursor underneath (one trusted closure shim); the bounded stand-in remains as an independent check: forward and reverse range iterators over all 9 bound-kind combinations with present/absent/equal/inverted bounds on files with index depth 0..4 and variable-length keys, compared with the filtered sorted list.',
         level_note=READER_UNPROVED + '; bounded: ~1300 ranges per run',
-        technique='Verus contracts on RangeIter/RevRangeIter over the proved cursor contracts (index-cursor moves assumed) + bounded differential stand-in',
+        technique='Verus contracts on RangeIter/RevRangeIter over the proved cursor contracts (index cursor proved as well) + bounded differential stand-in',
         kani=[], native=[N('verif_cursor::c04_ranges', '95 (405 thorough) ranges per file x 14 files')], witness=[],
-        unproved=[READER_UNPROVED], explanation='iterator and cursor layers proved; index-cursor traversal assumed + bounded'),
+        unproved=[READER_UNPROVED], explanation='iterator, cursor and index-cursor layers proved; bounded stand-in as independent check'),
     'C05': dict(
-        level='other',
-        level_text='Proved (Verus, unbounded, on top of the proved ReaderCursor contracts): advance_key computes the prefix successor adv(p) (None iff p is empty or all 0xFF), with the lemmas that keys with prefix p are exactly the keys in [p, adv(p)); PrefixIter::next / RevPrefixIter::next / move_on_last_prefix return the first (last) entry of that interval iff it has the prefix, then the adjacent one. The ReaderCursor contracts are themselves proved (C02/C03) relative to the assumed IndexBlockCursor moves, which the bounded stand-in exercises: forward and reverse prefix iterators for prefixes that are empty, longer than every key, stored keys, ending in / made of / containing interior 0xFF bytes, matching nothing; compared with the filtered sorted list.',
+        level='proof',
+        level_text='Proved (Verus, unbounded, on top of the proved ReaderCursor contracts): advance_key computes the prefix successor adv(p) (None iff p is empty or all 0xFF), with the lemmas that keys with prefix p are exactly the keys in [p, adv(p)); PrefixIter::next / RevPrefixIter::next / move_on_last_prefix return the first (last) entry of that interval iff it has the prefix, then the adjacent one. The ReaderCursor contracts are themselves proved (C02/C03) and so is the IndexBlockCursor underneath (one trusted closure shim); the bounded stand-in remains as an independent check: forward and reverse prefix iterators for prefixes that are empty, longer than every key, stored keys, ending in / made of / containing interior 0xFF bytes, matching nothing; compared with the filtered sorted list.',
         level_note=READER_UNPROVED + '; bounded: ~2000 prefixes per run',
-        technique='Verus contracts on advance_key/PrefixIter/RevPrefixIter over the proved cursor contracts (index-cursor moves assumed) + bounded differential stand-in',
+        technique='Verus contracts on advance_key/PrefixIter/RevPrefixIter over the proved cursor contracts (index cursor proved as well) + bounded differential stand-in',
         kani=[], native=[N('verif_cursor::c05_prefixes', '~150 prefixes per file x 14 files')], witness=[],
-        unproved=[READER_UNPROVED], explanation='iterator and cursor layers proved; index-cursor traversal assumed + bounded'),
+        unproved=[READER_UNPROVED], explanation='iterator, cursor and index-cursor layers proved; bounded stand-in as independent check'),
     'C06': dict(
         level='other',
         level_text='Proved (Verus): Entry::cmp (and eq/partial_cmp) is exactly the reverse of the lexicographic order on (current key, position at which the source was added), the order the statement prescribes for a max-heap, hence equal keys pop in source order (uses the type invariant "a heap entry holds a valid cursor", established outside the verified set); MergerBuilder operations are panic-free. MergerIter::next (BinaryHeap::peek_mut / PeekMut::pop, iterator chains over drain) is outside what the installed Verus accepts: bounded stand-in: all overlap patterns of 3 sources x 4 keys (every 5th in quick, all 4096 in thorough) plus random merges of up to 6 sources / 150 keys with an order-recording non-commutative merge function that logs every call; both the streaming iterator and write_into_stream_writer (decoded independently).',
@@ -146,12 +146,12 @@ PROPS = {
         unproved=['emitted block sizes >= B for non-final blocks (ghost log not built)'], assumptions=[ASSUME_PHYS, ASSUME_DROP],
         explanation='pending-size invariant proved; emitted sizes bounded'),
     'C16': dict(
-        level='other',
-        level_text='Proved (Verus, unbounded, ghost block-load counter rd_loads incremented only by Block::read_from): opening (Metadata::read_from, Reader::new, ReaderCursor::new) loads no block; each of ReaderCursor first/last/next/prev/>=/== loads at most levels+2 blocks and <= at most 2*(levels+2) (it is a >= followed by prev or last), whatever the file size -- relative to the ASSUMED bound "one IndexBlockCursor move loads at most levels+1 blocks" (IBC.*.loads.assumed). Bounded stand-in for that assumption and the whole path: an instrumented source counts absolute seeks (one per block load) per public cursor operation over 900 (4000 thorough) operations per file incl. full sweeps, index depth 0..4; opening reads <= 26 bytes and seeks to no block.',
+        level='proof',
+        level_text='Proved (Verus, unbounded, ghost block-load counter rd_loads incremented only by Block::read_from): opening (Metadata::read_from, Reader::new, ReaderCursor::new) loads no block; each of ReaderCursor first/last/next/prev/>=/== loads at most levels+2 blocks and <= at most 2*(levels+2) (it is a >= followed by prev or last), whatever the file size -- and one IndexBlockCursor move loads at most levels+1 blocks (proved: each level is reloaded at most once per move; IBC.*.loads). Bounded stand-in (independent check): an instrumented source counts absolute seeks (one per block load) per public cursor operation over 900 (4000 thorough) operations per file incl. full sweeps, index depth 0..4; opening reads <= 26 bytes and seeks to no block.',
         level_note=IBC_ASSUMED,
         technique='ghost load-counter contracts on Block::read_from, ReaderCursor and Metadata::read_from + bounded instrumented stand-in',
         kani=[], native=[N('verif_cursor::c16_io_bound', '14 files x 900 operations')], witness=[],
-        unproved=[READER_UNPROVED], explanation='per-operation bound proved at cursor level over the assumed per-move bound of the index cursor'),
+        unproved=[READER_UNPROVED], explanation='per-operation bound proved down to the block loader'),
     'C17': dict(
         level='other',
         level_text='Proved (Verus, unbounded): absence of arithmetic overflow/underflow and of out-of-range slice ranges or indices in every function under contract -- the write path, varint, metadata, block decoding, the cursors, and the bookkeeping of the sorter\'s two-ended buffer (Entries::insert with its recursive doubling, reallocate_buffer, fits, remaining, ... : every `buffer[a..][..b]`, `copy_from_slice`, `cast_slice_mut` and `bounds[i] = ..` is a discharged precondition, for all entry sizes incl. larger than the buffer). The three unsafe primitives behind the buffer (raw alloc / slice::from_raw_parts in new, deref, deref_mut, plus align_to) are ASSUMED contracts in Verus and checked on the real unsafe code by Kani: layout agreement alloc/dealloc (bounded sizes), fits() exactness (bounded), and refusal of every unrepresentable size (complete).',
